@@ -307,6 +307,9 @@ template <typename A> inline typename std::enable_if<! IsConsumable<A>::value>::
 inline void consumeRvalues() {}
 template <typename A, typename ...R> inline void consumeRvalues(A && a, R && ...r) { consumeOne<A>(std::forward<A>(a)); consumeRvalues(std::forward<R>(r)...); }
 
+// the TCallback object whose operator() is running on this thread (set just before the sink is told about the call)
+inline const void *& invokedInstance() { static thread_local const void * p = nullptr; return p; }
+
 struct TCallback
 {
 	Counted<K_CB> c;
@@ -332,6 +335,7 @@ struct TCallback
 		collectMut(m, std::forward<A>(a)...);
 		faultPoint(F_CB_INVOKE);
 		CallbackSink * s = callbackSink();
+		invokedInstance() = this;
 		if(s) s->onCall(c.id, p, m);
 		// behave like a listener that takes its parameters by value and consumes them: whatever arrives as an
 		// rvalue is moved from.  Harmless when the library hands every listener its own copy, visible to the
